@@ -938,6 +938,11 @@ def run(ctx):
     # "parsing that XML yields … an equal XML infoset": no parser of the package may drop content (rule shared with C11)
     from .c11 import r11h
     r11h(ctx)
+    # "any valid constructor arguments" include dates and durations (VarTime(time_adjust=…), typed values): the argument is exposed again only if the
+    # codecs are inverse (rules shared with C18)
+    from .c18 import r18b, r18d
+    r18b(ctx)
+    r18d(ctx)
 
 
 from ..selftest import Seed, unparse_seed  # noqa: E402
